@@ -94,7 +94,10 @@ def run(ctx, rep) -> None:
     # store_stage selects the phase-aware statement exactly when expected_phase is given
     for qual, mod in (("AtomicTransaction.store_stage", "stabilize.persistence.sqlite.transaction"), ("SqliteStageOpsMixin.store_stage", "stabilize.persistence.sqlite.store.stage_ops")):
         f = prog.func(mod, qual)
-        sel = [n for n in ast.walk(f.node) if isinstance(n, ast.If) and norm(n.test) == "expected_phase is not None" and any("expected_phase" in norm(x) and "UPDATE" in norm(x) for x in n.body)]
+        # either spelling: `if expected_phase is not None: <phase UPDATE>` or `if expected_phase is None: ... else: <phase UPDATE>`
+        sel = [n for n in ast.walk(f.node) if isinstance(n, ast.If) and (
+            (norm(n.test) == "expected_phase is not None" and any("expected_phase" in norm(x) and "UPDATE" in norm(x) for x in n.body)) or
+            (norm(n.test) == "expected_phase is None" and any("expected_phase" in norm(x) and "UPDATE" in norm(x) for x in n.orelse) and not any("expected_phase" in norm(x) and "UPDATE" in norm(x) for x in n.body)))]
         rep.check(bool(sel), "C04.R3", f"{qual} uses the phase CAS when expected_phase is given", "if expected_phase is not None: UPDATE ... AND status = :expected_phase", f.file, sel[0].lineno if sel else f.node.lineno, disc=f"{qual}:select")
 
     rep.rule("C04.R3b", "the version token is advanced only by the persistence layer and read before the rows it protects (the zombie test `no tasks` must be at least as new as the version it is paired with)")
